@@ -5,8 +5,9 @@
    standard problems).  The dimension bookkeeping (m_k, operation counts, from_k <= m_k) is
    proved on the GENERATED factorize_from (C05/C13); the numeric routines are tied by the
    invariants evaluated inside real solver runs at every hook event. *)
+From SV Require Import Cxx Ops LinAlg RngGen Arnoldi.
 From mathcomp Require Import all_ssreflect all_algebra.
-From SV Require Import Krylov.
+From SV Require Import Krylov OpsF ArnoldiPf.
 Set Implicit Arguments. Unset Strict Implicit. Unset Printing Implicit Defensive.
 Import GRing.Theory.
 Local Open Scope ring_scope.
@@ -60,3 +61,21 @@ Theorem C07_ritz_residual : forall (F : fieldType) (n k : nat) (A : 'M[F]_n) (V 
   A *m (V *m y) - theta *: (V *m y) = (ek *m y) 0 0 *: f.
 Proof. move=> F n k A V H f ek rel y theta; exact: ritz_residual. Qed.
 Print Assumptions C07_ritz_residual.
+
+(* ---- on the MODEL of Arnoldi::factorize_from itself (model/Arnoldi.v, tied bit for bit to the C++ in its binary64 instance), in exact
+   arithmetic over any real closed field: the Gram-Schmidt step gives w = V h + f for ANY basis V and ANY coefficients h, and the whole
+   re-orthogonalisation loop (any number of passes) either drops the residual (f = 0, beta = 0: the breakdown branch) or returns (f, h) that
+   still satisfy w = V h + f *)
+Theorem C07_model_gram_schmidt : forall (F : rcfType) (n : nat) (V : seq (seq F)) (w h : seq F) (r : nat),
+  (forall j, (j < size V)%N -> size (nth [::] V j) = n) -> size w = n -> (r < n)%N ->
+  comb V h r + nth 0 (Arnoldi.vsub2 (OpsF F) w (Arnoldi.lincomb (OpsF F) n V h)) r = nth 0 w r.
+Proof. move=> F n V w h r; exact: gs_relation. Qed.
+Print Assumptions C07_model_gram_schmidt.
+
+Theorem C07_model_reorth_relation : forall (F : rcfType) (eps bt : F) (n : nat) (Vs : seq (seq F)) (i1 : nat) (w : seq F) (fuel : nat) (f h : seq F) (beta : F) (Vf : seq F) (err : F),
+  (forall j, (j < size Vs)%N -> size (nth [::] Vs j) = n) -> size Vs = i1 ->
+  size f = n -> size h = i1 -> size Vf = i1 -> krel n Vs w f h ->
+  let '(f', h', beta') := Arnoldi.arn_reorth (OpsF F) eps fuel n Vs i1 bt f h beta Vf err in
+  (f' = nseq n 0 /\ beta' = 0) \/ krel n Vs w f' h'.
+Proof. move=> F eps bt n Vs i1 w fuel f h beta Vf err; exact: arn_reorth_relation. Qed.
+Print Assumptions C07_model_reorth_relation.
